@@ -142,7 +142,7 @@ structure CT where
   constr : Int
 deriving DecidableEq, Repr
 
-/-- the `RETURN` macro of ber_decoder.c -/
+/-- the `RETURN` macro of ber_decoder.c for RC_OK / RC_FAIL (RC_WMORE: see `checkTags`) -/
 def ctRet (hasCtx : Bool) (rc : Rc) (cons step : Nat) (lastLen constr : Int) : CT :=
   ⟨rc, if rc == .ok || hasCtx then cons else 0, step, lastLen, constr⟩
 
@@ -197,9 +197,9 @@ def ctLoop (tags : List Tag) (tagMode lastForm : Int) (hasCtx : Bool) :
 /-- `tagno = step + (tag_mode==1 ? -1 : 0)` -/
 def ctTagno (step : Nat) (tagMode : Int) : Int := (step : Int) + (if tagMode == 1 then -1 else 0)
 
-/-- `ber_check_tags(ctx, td, opt_ctx, ptr, size, tag_mode, last_tag_form, &last_length, &tlv_form)`;
+/-- the body of `ber_check_tags` with the `RETURN` macro as it treats RC_OK and RC_FAIL (`ctRet`);
     `ctxStep = none` ⇔ `opt_ctx == NULL` -/
-def checkTags (tags : List Tag) (ctxStep : Option Nat) (tagMode lastForm : Int) (bs : Bytes) : CT :=
+def checkTagsRaw (tags : List Tag) (ctxStep : Option Nat) (tagMode lastForm : Int) (bs : Bytes) : CT :=
   let step := ctxStep.getD 0
   let hasCtx := ctxStep.isSome
   let tagno : Int := ctTagno step tagMode
@@ -219,6 +219,14 @@ def checkTags (tags : List Tag) (ctxStep : Option Nat) (tagMode lastForm : Int) 
   else if tagno < count then
     ctLoop tags tagMode lastForm hasCtx (count - tagno).toNat tagno step (-1) 0 0 (-1) 0 bs
   else ctRet hasCtx .fail 0 step 0 (-1)     -- assert(tagno < tags_count)
+
+/-- `ber_check_tags(ctx, td, opt_ctx, ptr, size, tag_mode, last_tag_form, &last_length, &tlv_form)`.
+    The `RETURN` macro on RC_WMORE: nothing is reported consumed and `opt_ctx->step` is not written, with or without a
+    context – the tags read so far will be presented again (`expect_00_terminators` and `limit_len`, which they have
+    established, live in locals).  RC_OK / RC_FAIL: as `ctRet` says. -/
+def checkTags (tags : List Tag) (ctxStep : Option Nat) (tagMode lastForm : Int) (bs : Bytes) : CT :=
+  let r := checkTagsRaw tags ctxStep tagMode lastForm bs
+  if r.rc == .more then { r with consumed := 0, step := ctxStep.getD 0 } else r
 
 /-! ### primitive (context-free) decoders -/
 
@@ -408,9 +416,26 @@ def ostrFetch (l : Int) (bs : Bytes) : WF TL :=
     | .more => .ret .more
     | .ok len ll => .ok ⟨tag, c, len, tl, ll, bs.headD 1 == 0 && (bs.drop 1).headD 1 == 0⟩ (tl + ll)
 
-/-- phase 1 after the TL has been read: end-of-contents of the current frame, or the expected-tag check and
-    `OS__add_stack_el` -/
-def ostrTlv (allTags : List Tag) (s : OS) (t : TL) : Out OS :=
+/-- "Set up expected tags" of phase 1 for the subvariants STR / BIT / U16 / U32, `sel != NULL`: the tag demanded of
+    the TLV that starts below a frame of depth `level` (= `sel->cont_level`), given the tag `tag` it carries.
+    `chain` = `td->tags_count + (tag_mode == 1)`: the TLVs of the tag chain, which `ber_check_tags` has checked, pass;
+    below them a segment passes when it is a universal OCTET STRING (BIT STRING for `bits`: X.690 8.7.3.2, 8.23.6,
+    8.6.4.1) or carries what the decoder demanded before that rule was added: `all_tags[level]`, beyond the table its
+    last entry -/
+def ostrExpected (chain : Nat) (bits : Bool) (allTags : List Tag) (level : Nat) (tag : Tag) : Tag :=
+  if level + 1 < chain then tag
+  else if tag == (⟨0, if bits then 3 else 4⟩ : Tag) then tag
+  else if level < allTags.length then allTags.getD level tag
+  else if allTags.length ≠ 0 then allTags.getLastD tag
+  else tag
+
+/-- the expected-tag rule of the decoder of a type with the tags `tags` / `allTags` called with `tagMode` -/
+def ostrEx (tags allTags : List Tag) (bits : Bool) (tagMode : Int) : Nat → Tag → Tag :=
+  ostrExpected (tags.length + (if tagMode == 1 then 1 else 0)) bits allTags
+
+/-- phase 1 after the TL has been read: end-of-contents of the current frame, or the expected-tag check (`ex`, see
+    `ostrExpected`) and `OS__add_stack_el` -/
+def ostrTlv (ex : Nat → Tag → Tag) (s : OS) (t : TL) : Out OS :=
   let tlvl : Nat := t.tl + t.ll
   match s.stack with
   | f :: rest =>
@@ -420,11 +445,7 @@ def ostrTlv (allTags : List Tag) (s : OS) (t : TL) : Out OS :=
       let f2 : Frame := if f1.wantNulls == 0 then { f1 with left := 0 } else f1
       .cont (ostrLoopEnd { s with stack := f2 :: rest } (f1.wantNulls == 0 || t.constr)) 2
     else
-      let level := rest.length
-      let expected : Tag :=
-        if level < allTags.length then allTags.getD level t.tag
-        else if allTags.length ≠ 0 then allTags.getLastD t.tag
-        else t.tag
+      let expected : Tag := ex rest.length t.tag
       if t.tag != expected then .ret s .fail 0
       else if t.len + tlvl < 0 then .ret s .fail 0
       else
@@ -496,17 +517,17 @@ def ostrIt (tags allTags : List Tag) (bits : Bool) (tagMode : Int) (s : OS) (bs 
       else
         match ostrFetch s.selLeft bs with
         | .ret rc => .ret s rc 0
-        | .ok t _ => ostrTlv allTags s t
+        | .ok t _ => ostrTlv (ostrEx tags allTags bits tagMode) s t
     | [f] =>
       if f.left ≤ 0 && f.wantNulls == 0 then .cont (ostrLoopEnd { s with stack := [] } false) 0
       else
         match ostrFetch s.selLeft bs with
         | .ret rc => .ret s rc 0
-        | .ok t _ => ostrTlv allTags s t
+        | .ok t _ => ostrTlv (ostrEx tags allTags bits tagMode) s t
     | [] =>
       match ostrFetch s.selLeft bs with
       | .ret rc => .ret s rc 0
-      | .ok t _ => ostrTlv allTags s t
+      | .ok t _ => ostrTlv (ostrEx tags allTags bits tagMode) s t
   | 2 =>
     match s.stack with
     | [] => .ret s .fail 0
@@ -827,7 +848,7 @@ def dec : TD → Int → Node → Bytes → Node × Rc × Nat
   | .prim tags allTags (.ostr bits), tm, n, bs => ostrDec tags allTags bits tm n bs
   | .prim tags _ k, tm, n, bs => decPrim tags k tm n bs
   | .seq tags ms es fe t2e, tm, n, bs => seqDec tags es fe t2e (fun i => decAt ms es i) tm n bs
-  | .setOf tags e el, tm, n, bs => setOfDec tags el (dec e 0) tm n bs
+  | .setOf tags e el, tm, n, bs => setOfDec tags el (dec e el.tagMode) tm n bs
   | .choice tags ms es ext t2e, tm, n, bs => choiceDec tags es ext t2e (fun i => decAt ms es i) tm n bs
 /-- `elements[i].type->op->ber_decoder(…, elements[i].tag_mode)` -/
 def decAt : List TD → List Elem → Nat → Node → Bytes → Node × Rc × Nat
@@ -838,20 +859,18 @@ end
 
 /-! ### the descriptor trees covered by the restartability theorems (Props/C05Stream.lean) -/
 
-/-- the effective tag chain of a context-carrying decoder has at most one tag: `ber_check_tags` keeps
-    `expect_00_terminators` / `limit_len` in locals which a restart inside a longer chain loses -/
-def singleTag (tags : List Tag) (tm : Int) : Bool := decide (tags.length + (if tm == 1 then 1 else 0) ≤ 1)
-
 mutual
-def inDomain : TD → Int → Bool
-  | .prim tags _ (.ostr _), tm => singleTag tags tm
-  | .prim _ _ _, _ => true
-  | .seq tags ms es _ t2e, tm => singleTag tags tm && t2e.all (fun e => decide (e.elNo < es.length)) && inDomainL ms es
-  | .setOf tags e _, tm => singleTag tags tm && inDomain e 0
-  | .choice tags ms es _ _, tm => singleTag tags tm && inDomainL ms es
-def inDomainL : List TD → List Elem → Bool
-  | m :: ms, e :: es => inDomain m e.tagMode && inDomainL ms es
-  | _, _ => true
+/-- `tag2el` of every SEQUENCE points into its member table (the compiler guarantees it; `seqFind` would index
+    `elements[]` out of bounds otherwise).  Tag chains of any length are covered: `ber_check_tags` consumes a chain
+    whole or not at all. -/
+def inDomain : TD → Bool
+  | .prim _ _ _ => true
+  | .seq _ ms es _ t2e => t2e.all (fun e => decide (e.elNo < es.length)) && inDomainL ms
+  | .setOf _ e _ => inDomain e
+  | .choice _ ms _ _ _ => inDomainL ms
+def inDomainL : List TD → Bool
+  | m :: ms => inDomain m && inDomainL ms
+  | [] => true
 end
 
 /-- `ber_decode(0, td, &st, buf, size)`: the restartable decoder of the manual -/
